@@ -82,5 +82,7 @@ func (g *Global) IsBlockedHost(host string, qt uint16) (blocked bool) {
 
 // IsBlockedIP implements the [Interface] interface for *Global.
 func (g *Global) IsBlockedIP(ip netip.Addr) (blocked bool) {
-	return g.blockedNets.Contains(ip)
+	// Subnets have no zones, so [netip.Prefix.Contains] never matches a zoned
+	// (link-local) address.  Compare the address without its zone.
+	return g.blockedNets.Contains(ip.WithZone(""))
 }
